@@ -306,7 +306,7 @@ def dstepCore (st : DState) (line : String) : DState × Option String :=
     | some c, some a, some d, some f =>
       let c := if st.viaGrpc && c.isEmpty then "anonymous-empty" else c
       let (s', p) := if st.viaGrpc then hSignAtt st.inst c a d f.f (f.signFail.contains 0) else signAtt st.inst c a d f.f (f.signFail.contains 0)
-      ({ st with inst := s', lastTrace := traceAtt st.inst c a d ++ (if p.root.isSome then [.sign] else []) }, some (posStr p))
+      ({ st with inst := s', lastTrace := traceAtt st.inst c a d f.f.lockStateFail ++ (if p.root.isSome then [.sign] else []) }, some (posStr p))
     | _, _, _, _ => bad st line
   | ["atts", c, _ip, f, items] =>
     let its := (splitItems items).mapM (fun fs =>
@@ -320,7 +320,7 @@ def dstepCore (st : DState) (line : String) : DState × Option String :=
       let c := if st.viaGrpc && c.isEmpty then "anonymous-empty" else c
       let sf := expandSignFails (its.map (fun it => it.2.signingRoot)) f.signFail
       let (s', ps) := if st.viaGrpc then hSignAtts st.inst c its f.f sf else signAtts st.inst c its f.f sf
-      ({ st with inst := s', lastTrace := traceAtts st.inst c its ++ List.replicate (ps.filter (·.root.isSome)).length .sign }, some (manyStr ps))
+      ({ st with inst := s', lastTrace := traceAtts st.inst c its f.f.lockStateFail ++ List.replicate (ps.filter (·.root.isSome)).length .sign }, some (manyStr ps))
     | _, _, _ => bad st line
   | ["atts0", c, _ip] =>
     match unhexStr c with
@@ -333,15 +333,16 @@ def dstepCore (st : DState) (line : String) : DState × Option String :=
     | some c, some a, some d, some f =>
       let c := if st.viaGrpc && c.isEmpty then "anonymous-empty" else c
       let (s', p) := if st.viaGrpc then hSignProp st.inst c a d f.f (f.signFail.contains 0) else signProp st.inst c a d f.f (f.signFail.contains 0)
-      ({ st with inst := s', lastTrace := traceProp st.inst c a d ++ (if p.root.isSome then [.sign] else []) }, some (posStr p))
+      ({ st with inst := s', lastTrace := traceProp st.inst c a d f.f.lockStateFail ++ (if p.root.isSome then [.sign] else []) }, some (posStr p))
     | _, _, _, _ => bad st line
   | ["sign", c, ip, addr, d, f] =>
     match unhexStr c, ipOf ip, parseAddr addr, parseSign (d.splitOn ","), parseFaults f with
     | some c, some ip, some a, some d, some f =>
       let c := if st.viaGrpc && c.isEmpty then "anonymous-empty" else c
       let ip := if st.viaGrpc then (if ip.startsWith "127." then ip else "127.0.0.1") else ip
-      let (s', p) := if st.viaGrpc then hSignGeneric st.inst c ip a d (f.signFail.contains 0) else signGeneric st.inst c ip a d (f.signFail.contains 0)
-      ({ st with inst := s', lastTrace := traceSign st.inst c a d ++ (if p.root.isSome then [.sign] else []) }, some (posStr p))
+      let (s', p) := if st.viaGrpc then hSignGeneric st.inst c ip a d (f.signFail.contains 0) f.f.lockStateFail
+        else signGeneric st.inst c ip a d (f.signFail.contains 0) f.f.lockStateFail
+      ({ st with inst := s', lastTrace := traceSign st.inst c a d f.f.lockStateFail ++ (if p.root.isSome then [.sign] else []) }, some (posStr p))
     | _, _, _, _, _ => bad st line
   | ["msign", c, ip, f, items] =>
     let its := (splitItems items).mapM (fun fs =>
@@ -355,8 +356,8 @@ def dstepCore (st : DState) (line : String) : DState × Option String :=
       let c := if st.viaGrpc && c.isEmpty then "anonymous-empty" else c
       let ip := if st.viaGrpc then (if ip.startsWith "127." then ip else "127.0.0.1") else ip
       let sf := expandSignFails (its.map (fun it => it.2.signingRoot)) f.signFail
-      let (s', ps) := if st.viaGrpc then hMultisign st.inst c ip its sf else multisign st.inst c ip its sf
-      ({ st with inst := s', lastTrace := traceMsign st.inst c its ++ List.replicate (ps.filter (·.root.isSome)).length .sign }, some (manyStr ps))
+      let (s', ps) := if st.viaGrpc then hMultisign st.inst c ip its sf f.f.lockStateFail else multisign st.inst c ip its sf f.f.lockStateFail
+      ({ st with inst := s', lastTrace := traceMsign st.inst c its f.f.lockStateFail ++ List.replicate (ps.filter (·.root.isSome)).length .sign }, some (manyStr ps))
     | _, _, _, _ => bad st line
   -- dkg engine
   -- the same cluster with the real gRPC transport between the instances: nothing changes for the model
@@ -870,14 +871,6 @@ def dstep (st : DState) (line : String) : DState × Option String :=
   | "lin-end" :: final =>
     let ok := linSearch (st.linOps.length + 1) st st.linOps (" ".intercalate final).trimAscii.toString
     (st, some (if ok then "LINEARIZABLE" else "NOT-LINEARIZABLE"))
-  | _ =>
-    -- fault `u` (the accounts of this request cannot say whether they are unlocked): the request fails before the rules are
-    -- consulted; no state changes; what the reply's states are is left to the harness-side judge ("-")
-    let fs := fields line
-    let faultField := match fs with
-      | [k, _, _, _, _, fl] => if k == "att" || k == "prop" || k == "sign" then fl else "-"
-      | [k, _, _, fl, _] => if k == "atts" || k == "msign" then fl else "-"
-      | _ => "-"
-    if (faultField.splitOn ",").contains "u" then (st, some "-") else dstepCore st line
+  | _ => dstepCore st line
 
 end Driver
